@@ -16,7 +16,9 @@ MANIFEST = dict(
          "encoded transaction, the previous outputs the encoded PSBT designates and the reference segwit flags, and it "
          "accepts exactly the consistent PSBTs (a witness_utxo without its previous transaction only for witness-program / p2sh "
          "outputs: C19_psbt_bare_claims). C19_frame / C19_framed_stream / C19_read_message: the u32 length framing inverts, and any "
-         "number of messages written back to back are read back one by one by read / read_message, leaving the rest of the stream. "
+         "number of messages written back to back are read back one by one by read / read_message, leaving the rest of the stream "
+         "(the law is about the byte stream, so it holds however the carrier segments it: exercised over vls-proxy's UnixConnection / "
+         "UnixClient::read_raw on a real socket pair). "
          "The combinators, the dispatch and the PSBT post-processing are compared with "
          "the real as_vec / msgs::from_vec / msgs::write / read / read_message / from_reader (and the typed T::from_vec) on generated values of all registry types (boundary-driven), on malformed byte "
          "strings and on consistent/inconsistent PSBTs on every run, with a round-trip monitor on the implementation.",
@@ -92,8 +94,11 @@ def run(res):
     framed = lib.run_harness("wire", "framed", res.seed, 60 if quick else 600, res.tier)
     cases, mals, psbts, wps = msgs["CASE"], mal["MAL"], psbt["PSBT"], psbt["WP"]
     streams, fmals = framed["STREAM"], framed["FMAL"]
+    # the same frames over the real hsmd socket carrier of vls-proxy (binary `carrier` = wire.rs + feature `proxy`)
+    carrier = lib.run_harness("carrier", "carrier", res.seed, 48 if quick else 480, res.tier)
+    carried = carrier["CARRIER"]
     imports = ["Model.WireCheck"]
-    f_wire = f_mal = f_psbt = f_wp = f_stream = f_fmal = []
+    f_wire = f_mal = f_psbt = f_wp = f_stream = f_fmal = f_carrier = []
     if model_ok:   # (without a model only the monitors below run)
         f_wire = lib.coq_failures(imports, "wire_case", "check_wire", [c["coq"] for c in cases], "c19_wire")
         f_mal = lib.coq_failures(imports, "mal_case", "check_mal", [c["coq"] for c in mals], "c19_mal")
@@ -101,11 +106,13 @@ def run(res):
         f_wp = lib.coq_failures(imports, "wp_case", "check_wp", [c["coq"] for c in wps], "c19_wp")
         f_stream = lib.coq_failures(imports, "stream_case", "check_stream", [c["coq"] for c in streams], "c19_stream")
         f_fmal = lib.coq_failures(imports, "fmal_case", "check_fmal", [c["coq"] for c in fmals], "c19_fmal")
+        f_carrier = lib.coq_failures(imports, "stream_case", "check_stream", [c["coq"] for c in carried], "c19_carrier")
 
     # the property itself on the implementation's answers
     mon = [c for c in cases if c["monitor_violation"]]
     mon_psbt = [c for c in psbts if c["monitor_violation"]]
     mon_stream = [c for c in streams if c["monitor_violation"]]
+    mon_carrier = [c for c in carried if c["monitor_violation"]]
     seen = set()
     for c in mon:
         key = (c["ty"], c["out"], c["detail"])
@@ -135,7 +142,14 @@ def run(res):
                        "stream_written_by_msgs_write_hex": c["stream_hex"], "read_back": c["detail"],
                        "expected": "msgs::write(m) == write_vec(as_vec(m)); msgs::read / read_message / from_reader return the messages one by one, nothing left",
                        "replay": "harness wire framed --seed %d --n %d" % (res.seed, 60 if quick else 600)})
-    if not mon and not mon_psbt and not mon_stream:
+    for c in mon_carrier[:2]:
+        res.violation("hsmd socket carrier: " + c["monitor_violation"],
+                      {"domain": "wire-carrier", "seed": res.seed, "case": c["case"], "types": c["types"], "cut": c["cut"],
+                       "segment_lengths": c["segments"], "values_coq": c["values"], "stream_hex": c["stream_hex"],
+                       "expected": "UnixClient::read_raw returns, frame by frame, exactly the bytes written (u32 length prefix, body of that "
+                                   "length), however the stream was segmented; they decode to the messages sent",
+                       "replay": "harness carrier carrier --seed %d --n %d" % (res.seed, 48 if quick else 480)})
+    if not mon and not mon_psbt and not mon_stream and not mon_carrier:
         for i in f_wire[:2]:
             c = cases[i]
             res.violation("as_vec / from_vec of %s disagrees with the generated model (correspondence wire-msgs)" % c["ty"],
@@ -154,6 +168,11 @@ def run(res):
             res.violation("msgs::write / msgs::read on a framed stream disagrees with the model (correspondence wire-framed)",
                           {"correspondence": "wire-framed", "theorem": "C19_framed_stream",
                            "case": {k: v for k, v in c.items() if k != "coq"}}, has_input=False)
+        for i in f_carrier[:2]:
+            c = carried[i]
+            res.violation("frames read through vls-proxy's UnixClient::read_raw disagree with the framing model (correspondence wire-carrier)",
+                          {"correspondence": "wire-carrier", "theorem": "C19_framed_stream",
+                           "case": {k: v for k, v in c.items() if k != "coq"}}, has_input=False)
         for i in f_fmal[:2]:
             res.violation("msgs::read on a malformed frame disagrees with the model (correspondence wire-framed)",
                           {"correspondence": "wire-framed", "case": {k: v for k, v in fmals[i].items() if k != "coq"}}, has_input=False)
@@ -169,12 +188,13 @@ def run(res):
     nontrivial |= {c["coq"] for c in mals if c["what"] not in ("valid", "empty", "one-byte")}
     nontrivial |= {c["coq"] for c in streams if len(c["types"]) >= 2}
     nontrivial |= {c["coq"] for c in fmals if c["what"] != "frame+tail"}
+    nontrivial |= {c["coq"] + c["cut"] for c in carried if len(c["segments"]) >= 2}
     per_type = {}
     for c in cases:
         per_type[c["ty"]] = per_type.get(c["ty"], 0) + 1
     small = [c for c in cases if c["len"] < 200 and c["kind"] == "rand"]
     cov.update({
-        "evaluations": len(cases) + len(mals) + len(psbts) + len(wps) + len(streams) + len(fmals),
+        "evaluations": len(cases) + len(mals) + len(psbts) + len(wps) + len(streams) + len(fmals) + len(carried),
         "distinct_nontrivial": len(nontrivial),
         "rule": "msgs: for each of the registry's message types (generated list) the all-minimal value (None, empty, 0), the "
                 "all-maximal value (Some, full small arrays, integer maxima), random values with integers drawn from 0, 1, MAX, MAX-1, "
@@ -184,6 +204,10 @@ def run(res):
                 "the largest lengths with total size <= 65535 / 65536 / 65537, for TLV option streams every array count from just below a "
                 "65535-byte stream to 150 beyond it (so that a record ends exactly at byte 65535 with further records behind it), "
                 "65536 bytes of Octets / a NUL in a WireString (as_vec panics) and 65536 array elements (count truncated: observation); "
+                "carrier: 1-3 frames (random registry values, large streamed-PSBT requests with hundreds of utxos, long byte strings) written "
+                "to a UnixStream::pair() in 1, 2 or 3 segments (cut in the body, right after / inside the length prefix, after the type, "
+                "before the last byte, the earlier frames arriving whole) and taken off the socket with vls-proxy's UnixClient::read_raw over "
+                "UnixConnection, compared bytewise and after decoding; replies written with UnixClient::write_vec read back at the other end; "
                 "framed: sequences of 2-4 messages (every registry type first or second in some sequence; minimal / maximal / random / one "
                 "long message) written with msgs::write (must equal write_vec(as_vec())), read back with msgs::read, read_message::<T> and "
                 "from_reader, nothing left; single frames with length +1 / -1 / < 2 / > max, stream ending early, short length prefix; "
@@ -198,16 +222,16 @@ def run(res):
                 "transaction; distinct by Coq term",
         "samples": [{k: v for k, v in c.items() if k not in ("value", "full_bytes")} for c in small[:2]]
                    + [{k: v for k, v in mals[5].items()}] + [{k: v for k, v in psbts[0].items() if k != "psbt_hex"}],
-        "traces_validated_against_impl": len(cases) + len(mals) + len(psbts) + len(wps) + len(streams) + len(fmals),
-        "correspondence_disagreements": len(f_wire) + len(f_mal) + len(f_psbt) + len(f_wp) + len(f_stream) + len(f_fmal),
-        "monitor_failures": len(mon) + len(mon_psbt) + len(mon_stream),
+        "traces_validated_against_impl": len(cases) + len(mals) + len(psbts) + len(wps) + len(streams) + len(fmals) + len(carried),
+        "correspondence_disagreements": len(f_wire) + len(f_mal) + len(f_psbt) + len(f_wp) + len(f_stream) + len(f_fmal) + len(f_carrier),
+        "monitor_failures": len(mon) + len(mon_psbt) + len(mon_stream) + len(mon_carrier),
         "registry_types": report["messages"],
         "registry_types_exercised": len(per_type),
         "cases_per_type_min": min(per_type.values()) if per_type else 0,
         "observations": [{"ty": c["ty"], "note": c["note"], "what": "Array writes its count with `as u16`: 65536 elements are "
                           "written as count 0 and msgs::from_vec then refuses the bytes (%s); not a value the wire format can denote, "
                           "the count bound is an explicit hypothesis of C19_registry (wf_msg)" % c["detail"]} for c in observations][:3],
-        "harness_stats": msgs.get("STATS", []) + mal.get("STATS", []) + psbt.get("STATS", []) + framed.get("STATS", []),
+        "harness_stats": msgs.get("STATS", []) + mal.get("STATS", []) + psbt.get("STATS", []) + framed.get("STATS", []) + carrier.get("STATS", []),
     })
     res.assumptions = [
         "blob_laws: rust-bitcoin's Transaction and Psbt and txoo's TxoProof decode their own encodings (premise of the theorems; exercised by the harness, not proved)",
